@@ -8,6 +8,7 @@ package main
 // (rrule-go), text comparison on real strings, multi-valued properties.
 
 import (
+	"sort"
 	"fmt"
 	"go/types"
 	"strings"
@@ -119,6 +120,35 @@ func runC06(c *Ctx, pr *PropertyRun) {
 		}
 	}
 	run(tr, c06CompRange(c, f), 30)
+	// the recurring branch: which window of the recurrence set decides
+	rw := NewRule("C06", "C06.recurring-window", "for a recurring event the verdict must be 'some instance overlaps the range' (RFC 4791 §9.9: instance start < range end and instance end > range start); what the code asks the recurrence set is extracted from the table (E2)")
+	pr.Rules = append(pr.Rules, rw)
+	{
+		res := runDTX(c, c06CompRange(c, f))
+		windows := map[string]string{}
+		for _, l := range res.Leaves {
+			for _, e := range l.Trace {
+				if e.Name == "Between" {
+					windows[strings.Trim(keyOf(e.Args[0]), `"`)] = p.Pos(e.Pos)
+				}
+			}
+		}
+		var ws []string
+		for w := range windows {
+			ws = append(ws, w)
+		}
+		sort.Strings(ws)
+		for _, w := range ws {
+			rw.Role("recurrence-window")
+			rw.Ob(false)
+			if w == "instances-between(start,end,inclusive=true)" {
+				rw.Violation("recurring-window|instance START times in [start, end]", windows[w], "a recurring event is matched iff an instance STARTS within [range start, range end], both bounds inclusive: the length of the instances is ignored, so an instance that began before the range and reaches into it is not matched, and an instance beginning exactly at the range end is (RFC 4791 §9.9 requires start < DTEND and end > DTSTART per instance)", nil)
+			} else {
+				rw.Violation("recurring-window|"+w, windows[w], "a recurring event is matched on "+w+": whether this is 'some instance overlaps the half-open range' cannot be read off the window alone — the instances' length and the strictness of both bounds must enter the verdict (RFC 4791 §9.9)", nil)
+			}
+		}
+		rw.RequireRole("recurrence-window")
+	}
 	run(tr, c06PropRange(c, f), 8)
 	run(pol, c06Text(c, f), 4)
 	run(pol, c06Param(c, f), 4)
@@ -153,9 +183,23 @@ func icalModelsFull(in *Interp, site ssa.CallInstruction, name string, args []Va
 			return Tuple{[]Val{kNil, failing(k)}}, true
 		}
 		if in.truth(LazyBool{"recurring(" + keyOf(args[0]) + ")"}) {
-			return Tuple{[]Val{Opaque{k, res.At(0).Type()}, kNil}}, true
+			// a non-nil set (its nil-ness is the `recurring` atom, not a second one)
+			et := res.At(0).Type().(*types.Pointer).Elem()
+			return Tuple{[]Val{Ptr{&Cell{V: Opaque{k, et}, T: et, Name: k}}, kNil}}, true
 		}
 		return Tuple{[]Val{kNil, kNil}}, true
+	case "(*github.com/teambition/rrule-go.Set).Between":
+		// the window the recurrence set is asked about: the verdict of the
+		// recurring branch is an uninterpreted function of exactly these
+		// three arguments
+		w := "instances-between(" + keyOf(args[1]) + "," + keyOf(args[2]) + ",inclusive=" + keyOf(args[3]) + ")"
+		in.effect("Between", site.Pos(), kStr(w))
+		sl := Slice{}
+		if in.truth(LazyBool{w}) {
+			tt := res.At(0).Type().(*types.Slice).Elem()
+			sl = Slice{NonNil: true, E: []*Cell{{V: TimeV{"instance"}, T: tt}}}
+		}
+		return sl, true
 	case "(" + pkgIcal + ".Event).DateTimeStart", "(*" + pkgIcal + ".Event).DateTimeStart":
 		if in.truth(LazyBool{"fails:DTSTART"}) {
 			return Tuple{[]Val{TimeV{"ZERO"}, failing("DTSTART")}}, true
@@ -226,7 +270,7 @@ func c06CompRange(c *Ctx, f c06Fns) DTXSpec {
 				return []string{"error"}, true
 			}
 			if env.Bool("recurring(&comp)") {
-				return nil, false // recurrence expansion is rrule-go's; not decided
+				return nil, false // the verdict is rrule-go's; the WINDOW asked about is C06.recurring-window's
 			}
 			if !env.Eq(S("comp.Name"), K("VEVENT")) {
 				return nil, false // the statement's interval rules are about events
